@@ -186,4 +186,67 @@ theorem drainQueues_laneSorted (qs : List (Lane × List Ev)) (h : QInv qs) :
 theorem sortStage_laneSorted (evs : List Ev) : LaneSorted (sortStage evs) :=
   drainQueues_laneSorted _ (foldl_enqueue_QInv evs [] ⟨by simp, by simp⟩)
 
+/-! ### … and, within a lane, sorted by the full key `(ts, -dur)` -/
+
+/-- the order of the sort key `"ts,dur:r"` -/
+def KeyOrd (a b : Ev) : Prop := a.ts < b.ts ∨ (a.ts = b.ts ∧ b.dur ≤ a.dur)
+
+theorem keyLe_iff {a b : Ev} : keyLe a b = true ↔ KeyOrd a b := by
+  simp [keyLe, KeyOrd]
+
+theorem insertBy_sortedK (x : Ev) (l : List Ev) (h : l.Pairwise KeyOrd) :
+    (insertBy x l).Pairwise KeyOrd := by
+  induction l with
+  | nil => simp [insertBy]
+  | cons y r ih =>
+    obtain ⟨hy, hr⟩ := List.pairwise_cons.mp h
+    unfold insertBy
+    split
+    · rename_i hk
+      have hk := keyLe_iff.mp hk
+      refine List.Pairwise.cons ?_ h
+      intro z hz
+      rcases List.mem_cons.mp hz with hz | hz
+      · subst hz; exact hk
+      · have := hy z hz
+        unfold KeyOrd at *; grind
+    · rename_i hk
+      have hk : ¬ KeyOrd x y := fun h => hk (keyLe_iff.mpr h)
+      refine List.Pairwise.cons ?_ (ih hr)
+      intro z hz
+      rcases mem_insertBy.mp hz with hz | hz
+      · subst hz; unfold KeyOrd at *; grind
+      · exact hy z hz
+
+theorem isort_sortedK (l : List Ev) : (isort l).Pairwise KeyOrd := by
+  induction l with
+  | nil => simp [isort]
+  | cons x r ih => exact insertBy_sortedK x _ ih
+
+theorem drainQueues_pairwise (R : Ev → Ev → Prop) (hR : ∀ l, (isort l).Pairwise R)
+    (qs : List (Lane × List Ev)) (h : QInv qs) :
+    (drainQueues qs).Pairwise (fun a b => a.lane = b.lane → R a b) := by
+  induction qs with
+  | nil => simp [drainQueues]
+  | cons lq r ih =>
+    obtain ⟨h1, h2⟩ := h
+    obtain ⟨h2a, h2b⟩ := List.pairwise_cons.mp h2
+    have hr : QInv r := ⟨fun lq hlq => h1 lq (List.mem_cons_of_mem _ hlq), h2b⟩
+    have ih' := ih hr
+    simp only [drainQueues, List.flatMap_cons] at ih' ⊢
+    rw [List.pairwise_append]
+    refine ⟨List.Pairwise.imp (S := fun a b => a.lane = b.lane → R a b) (fun hab _ => hab) (hR lq.2), ih', ?_⟩
+    intro a ha b hb hl
+    exfalso
+    have hla : a.lane = lq.1 := h1 lq (by simp) a (mem_isort.mp ha)
+    obtain ⟨lq', hlq', hb'⟩ := List.mem_flatMap.mp hb
+    have hlb : b.lane = lq'.1 := h1 lq' (List.mem_cons_of_mem _ hlq') b (mem_isort.mp hb')
+    exact h2a lq' hlq' (by rw [← hla, ← hlb, hl])
+
+/-- on one lane the sorted stream is ordered by `(ts, -dur)`: of two slices with equal start the
+longer comes first -/
+theorem sortStage_keySorted (evs : List Ev) :
+    (sortStage evs).Pairwise (fun a b => a.lane = b.lane → KeyOrd a b) :=
+  drainQueues_pairwise KeyOrd isort_sortedK _ (foldl_enqueue_QInv evs [] ⟨by simp, by simp⟩)
+
 end AiuVerif.Overlap
